@@ -5,12 +5,20 @@
 
    Models: Model/Merkle.v (merkle_root with its argument mutation made explicit),
    Model/MerkleBlock.v (faithful cursor machine [mb_is_valid] and the recursive traversal
-   [mb_is_valid_rec]), Model/Pow.v.  Specs: Spec/Bip37.v (Core ComputeMerkleRoot and the
-   CPartialMerkleTree builder), Spec/CorePow.v (arith_uint256 Set/GetCompact,
-   CalculateNextWorkRequired, CheckProofOfWork). *)
+   [mb_is_valid_rec]), Model/MerkleBlockX.v (populate_tree's effect on the caller's lists,
+   parse . is_valid compositions), Model/Pow.v.  Specs: Spec/Bip37.v (Core ComputeMerkleRoot and
+   the CPartialMerkleTree builder), Spec/MerkleBlockWire.v (CMerkleBlock serialisation),
+   Spec/CorePow.v (arith_uint256 Set/GetCompact, CalculateNextWorkRequired, CheckProofOfWork).
+
+   The models mirror /repo after the repairs fd08533 (check_pow: hash <= target), 5e35f6e
+   (populate_tree refuses proof hashes that are not 32 bytes long) and de6be4c (compact bits
+   follow SetCompact / GetCompact on the whole domain).  Concrete instances with explicit
+   closed witnesses live in Proofs/C17Examples.v: no tactic in this file computes. *)
 From V Require Import Base.Prelude Base.Ints Model.Helper Model.Block Model.Merkle Model.MerkleBlock
   Model.Pow Spec.Bip37 Spec.CorePow
   Proofs.MerkleP Proofs.Bip37P Proofs.MerkleBlockP Proofs.MerkleRefine Proofs.MerkleRefineGen Proofs.PowP Proofs.PowP2 Proofs.PowP3.
+From V Require Import Model.Network Model.MerkleBlockX Model.Difficulty Spec.MerkleBlockWire
+  Proofs.MerkleDeepP Proofs.MerkleWireP Proofs.MerkleMutP Proofs.PowDeepP Proofs.DifficultyP Proofs.C17Examples.
 
 (* ---------------------------------------------------------------------------------- *)
 (* (1) Merkle root *)
@@ -57,9 +65,14 @@ Print Assumptions C17_consensus_root_is_calc_hash.
 (* ---------------------------------------------------------------------------------- *)
 (* (2) completeness: for every block size n >= 1 and every match set, the BIP37 partial
    Merkle tree built per the specification validates against the true root and yields
-   exactly the matched ids in order *)
-Theorem C17_proof_complete : forall (hash256 : bytes -> bytes) (ids : list bytes) (matches : list bool),
-  ids <> [] -> length matches = length ids ->
+   exactly the matched ids in order.  Since the fix 5e35f6e populate_tree refuses hashes that
+   are not 32 bytes long, so the statement is for a hash function with 32-byte output and
+   32-byte transaction ids (before the fix it held for every hash function and ids of any
+   length; that generality is exactly what K-C17-hashlen exploited). *)
+Theorem C17_proof_complete : forall (hash256 : bytes -> bytes),
+  (forall x, length (hash256 x) = 32%nat) ->
+  forall (ids : list bytes) (matches : list bool),
+  ids <> [] -> Forall (fun t => length t = 32%nat) ids -> length matches = length ids ->
   let txids := map (@rev Z) ids in
   let '(total, hashes, flags) := bip37_proof hash256 txids matches in
   total = zlen ids /\
@@ -69,14 +82,12 @@ Proof. exact proof_complete. Qed.
 Print Assumptions C17_proof_complete.
 
 Example C17_proof_complete_instance :
-  let H := fun x : bytes => firstn 2 (x ++ [7; 9]) in
-  let ids := [[1; 2]; [3; 4]; [5; 6]] in
-  let '(total, hashes, flags) := bip37_proof H (map (@rev Z) ids) [false; true; true] in
-  mb_is_valid_rec H (rev (consensus_root H (map (@rev Z) ids))) total (map (@rev Z) hashes) flags
-  = Ok (true, [[3; 4]; [5; 6]]) /\
-  mb_is_valid H (rev (consensus_root H (map (@rev Z) ids))) total (map (@rev Z) hashes) flags
-  = Ok (true, [[3; 4]; [5; 6]]).
-Proof. split; reflexivity. Qed.
+  let '(total, hashes, flags) := bip37_proof ex_hash (map (@rev Z) ex_ids) [false; true; true] in
+  mb_is_valid_rec ex_hash (rev (consensus_root ex_hash (map (@rev Z) ex_ids))) total (map (@rev Z) hashes) flags
+  = Ok (true, [repeatz 2 32; repeatz 3 32]) /\
+  mb_is_valid ex_hash (rev (consensus_root ex_hash (map (@rev Z) ex_ids))) total (map (@rev Z) hashes) flags
+  = Ok (true, [repeatz 2 32; repeatz 3 32]).
+Proof. exact ex_proof_complete_instance. Qed.
 
 (* ---------------------------------------------------------------------------------- *)
 (* (3) soundness when total is the block's transaction count: every id yielded by a proof
@@ -98,8 +109,10 @@ Print Assumptions C17_proof_sound_known_total.
 (* (4) known finding K-C17-total: `total` is taken from the message.  A block with two
    transactions presented with total = 1 "proves" its root (an interior node) as a
    transaction id; four transactions presented as total = 2 prove the two level-1 nodes.
-   Both the cursor machine and the recursive traversal accept, for every hash function. *)
-Theorem C17_proof_unsound_free_total_refuted : forall (hash256 : bytes -> bytes) (a b : bytes),
+   Both the cursor machine and the recursive traversal accept, for every hash function with
+   32-byte output (the forged "ids" are node hashes, hence 32 bytes long). *)
+Theorem C17_proof_unsound_free_total_refuted : forall (hash256 : bytes -> bytes),
+  (forall x, length (hash256 x) = 32%nat) -> forall (a b : bytes),
   let ids := [a; b] in
   let node := hash256 (rev a ++ rev b) in
   validate_merkle_root hash256 (rev node) ids = Ok true /\
@@ -108,7 +121,8 @@ Theorem C17_proof_unsound_free_total_refuted : forall (hash256 : bytes -> bytes)
 Proof. exact forged_total_2_as_1. Qed.
 Print Assumptions C17_proof_unsound_free_total_refuted.
 
-Theorem C17_proof_unsound_free_total_4_as_2_refuted : forall (hash256 : bytes -> bytes) (a b c d : bytes),
+Theorem C17_proof_unsound_free_total_4_as_2_refuted : forall (hash256 : bytes -> bytes),
+  (forall x, length (hash256 x) = 32%nat) -> forall (a b c d : bytes),
   let ids := [a; b; c; d] in
   let n1 := hash256 (rev a ++ rev b) in
   let n2 := hash256 (rev c ++ rev d) in
@@ -119,20 +133,43 @@ Theorem C17_proof_unsound_free_total_4_as_2_refuted : forall (hash256 : bytes ->
 Proof. exact forged_total_4_as_2. Qed.
 Print Assumptions C17_proof_unsound_free_total_4_as_2_refuted.
 
-(* the 32-byte hypothesis on the proof hashes in (3) is needed: a MerkleBlock object built
-   directly (MerkleBlock.parse always produces 32-byte hashes) with a 33- and a 31-byte
-   hash splits la ++ lb elsewhere and validates with the authentic total (K-C17-hashlen) *)
-Theorem C17_proof_unsound_hash_length_refuted : forall (hash256 : bytes -> bytes) (la lb' : bytes) (x : Z),
-  let lb := x :: lb' in
-  let ids := [rev la; rev lb] in
-  let root := hash256 (la ++ lb) in
-  validate_merkle_root hash256 (rev root) ids = Ok true /\
-  mb_is_valid hash256 (rev root) 2 [rev (la ++ [x]); rev lb'] [7]
-    = Ok (true, [rev (la ++ [x]); rev lb']) /\
-  mb_is_valid_rec hash256 (rev root) 2 [rev (la ++ [x]); rev lb'] [7]
-    = Ok (true, [rev (la ++ [x]); rev lb']).
-Proof. exact split_hash_length. Qed.
-Print Assumptions C17_proof_unsound_hash_length_refuted.
+(* former known finding K-C17-hashlen, repaired by 5e35f6e: a proof with a hash that is not 32
+   bytes long (only a MerkleBlock object built directly can hold one) is refused — is_valid
+   raises — so whatever is_valid returns a value for has 32-byte hashes, and the 32-byte
+   premise on the PROOF in (3) can be dropped *)
+Theorem C17_proof_rejects_non_32_byte_hashes : forall (hash256 : bytes -> bytes) hdr_root total hashes flags,
+  ~ Forall (fun t => length t = 32%nat) hashes ->
+  mb_is_valid hash256 hdr_root total hashes flags = Err /\
+  mb_is_valid_rec hash256 hdr_root total hashes flags = Err.
+Proof. exact is_valid_rejects_bad_length. Qed.
+Print Assumptions C17_proof_rejects_non_32_byte_hashes.
+
+Theorem C17_proof_accepted_has_32_byte_hashes : forall (hash256 : bytes -> bytes) hdr_root total hashes flags r,
+  mb_is_valid hash256 hdr_root total hashes flags = Ok r ->
+  Forall (fun t => length t = 32%nat) hashes.
+Proof. exact is_valid_ok_32. Qed.
+Print Assumptions C17_proof_accepted_has_32_byte_hashes.
+
+(* the former witness (a 33- and a 31-byte hash that split la ++ lb elsewhere) is refused *)
+Theorem C17_proof_hash_length_witness_rejected : forall (hash256 : bytes -> bytes) (la lb' : bytes) (x : Z),
+  length (la ++ [x]) <> 32%nat ->
+  let root := hash256 (la ++ x :: lb') in
+  mb_is_valid hash256 (rev root) 2 [rev (la ++ [x]); rev lb'] [7] = Err /\
+  mb_is_valid_rec hash256 (rev root) 2 [rev (la ++ [x]); rev lb'] [7] = Err.
+Proof. exact split_hash_length_rejected. Qed.
+Print Assumptions C17_proof_hash_length_witness_rejected.
+
+(* (3) for every proof object, without a premise on its hashes *)
+Theorem C17_proof_sound_known_total_any_proof : forall (hash256 : bytes -> bytes),
+  (forall x, length (hash256 x) = 32%nat) ->
+  forall (ids : list bytes) hdr_root hashes flags proved,
+  ids <> [] -> Forall (fun t => length t = 32%nat) ids ->
+  validate_merkle_root hash256 hdr_root ids = Ok true ->
+  mb_is_valid_rec hash256 hdr_root (zlen ids) hashes flags = Ok (true, proved) ->
+  (forall m, In m proved -> In m ids) \/
+  (exists x y : bytes, x <> y /\ hash256 x = hash256 y).
+Proof. exact proof_sound_known_total_nolen. Qed.
+Print Assumptions C17_proof_sound_known_total_any_proof.
 
 (* the forged id really is foreign whenever the node hash differs from both leaves *)
 Example C17_forged_id_is_foreign :
@@ -190,8 +227,10 @@ Print Assumptions C17_is_valid_machine_eq_traversal.
 
 (* ... and (2) completeness and (3) soundness with known total hold for the faithful
    cursor machine [mb_is_valid] *)
-Theorem C17_proof_complete_machine : forall (hash256 : bytes -> bytes) (ids : list bytes) (matches : list bool),
-  ids <> [] -> length matches = length ids ->
+Theorem C17_proof_complete_machine : forall (hash256 : bytes -> bytes),
+  (forall x, length (hash256 x) = 32%nat) ->
+  forall (ids : list bytes) (matches : list bool),
+  ids <> [] -> Forall (fun t => length t = 32%nat) ids -> length matches = length ids ->
   let txids := map (@rev Z) ids in
   let '(total, hashes, flags) := bip37_proof hash256 txids matches in
   total = zlen ids /\
@@ -229,35 +268,54 @@ Theorem C17_compact_guard_3_to_32 : forall bits, compact_guard32 bits = true -> 
 Proof. exact compact_guard32_guard. Qed.
 Print Assumptions C17_compact_guard_3_to_32.
 
-(* the guard is exact: for four-byte bits outside it there is no v such that bits_to_target
-   returns the int v and SetCompact returns v without negative / overflow flag *)
-Theorem C17_compact_guard_exact : forall bits,
-  bytes_ok bits -> length bits = 4%nat -> compact_guard bits = false ->
-  forall v, ~ (bits_to_target bits = Ok (PInt v) /\ set_compact (from_le bits) = (v, false, false)).
-Proof. exact compact_guard_exact. Qed.
-Print Assumptions C17_compact_guard_exact.
+(* since the fix de6be4c agreement is total: for EVERY four-byte bits value bits_to_target
+   returns Core's SetCompact value when Core flags neither negative nor overflow, and raises
+   (ValueError) exactly when Core flags either.  (This replaces C17_compact_guard_exact, which
+   said that before the fix the guard above was exactly the agreement domain.) *)
+Theorem C17_compact_eq_core_all : forall bits,
+  bytes_ok bits -> length bits = 4%nat ->
+  bits_to_target bits =
+  let '(v, neg, ovf) := set_compact (from_le bits) in
+  if neg || ovf then Err else Ok (PInt v).
+Proof. exact bits_to_target_eq_core. Qed.
+Print Assumptions C17_compact_eq_core_all.
+
+(* the same with the kind of exception: never IndexError on four bytes *)
+Theorem C17_compact_eq_core_all_x : forall bits,
+  bytes_ok bits -> length bits = 4%nat ->
+  bits_to_target_x bits =
+  let '(v, neg, ovf) := set_compact (from_le bits) in
+  if neg || ovf then B2T_value_error else B2T_ok v.
+Proof. exact bits_to_target_x_core. Qed.
+Print Assumptions C17_compact_eq_core_all_x.
 
 Example C17_compact_guard_mainnet : compact_guard [255; 255; 0; 29] = true.
 Proof. reflexivity. Qed.
 
-(* known finding K-C17-compact: the divergences outside the guard *)
-Theorem C17_compact_exponent_lt3_refuted :
-  exists bits, bytes_ok bits /\ length bits = 4%nat /\
-    bits_to_target bits = Ok (PFloat 256 1) /\ set_compact (from_le bits) = (1, false, false).
-Proof. exact compact_exponent_lt3_refuted. Qed.
-Print Assumptions C17_compact_exponent_lt3_refuted.
+(* the former divergences (known finding K-C17-compact, repaired by de6be4c) as instances of
+   agreement: exponent < 3 gives Core's integer (was a float); a set sign bit with a non-zero
+   word raises (was read as magnitude), with a zero word gives 0; an overflowing exponent
+   raises (was a number >= 2^256), the largest that fit are accepted *)
+Theorem C17_compact_exponent_lt3_agrees :
+  bits_to_target [0; 1; 0; 2] = Ok (PInt 1) /\ set_compact (from_le [0; 1; 0; 2]) = (1, false, false) /\
+  bits_to_target [255; 255; 127; 0] = Ok (PInt 0) /\ bits_to_target [0; 0; 1; 1] = Ok (PInt 1).
+Proof. exact compact_exponent_lt3_instance. Qed.
+Print Assumptions C17_compact_exponent_lt3_agrees.
 
-Theorem C17_compact_sign_bit_refuted :
-  exists bits, bytes_ok bits /\ length bits = 4%nat /\
-    bits_to_target bits = Ok (PInt 2147483904) /\ set_compact (from_le bits) = (256, true, false).
-Proof. exact compact_sign_bit_refuted. Qed.
-Print Assumptions C17_compact_sign_bit_refuted.
+Theorem C17_compact_sign_bit_agrees :
+  bits_to_target [1; 0; 128; 4] = Err /\ set_compact (from_le [1; 0; 128; 4]) = (256, true, false) /\
+  bits_to_target [0; 0; 128; 4] = Ok (PInt 0) /\ set_compact (from_le [0; 0; 128; 4]) = (0, false, false) /\
+  bits_to_target [1; 0; 128; 0] = Ok (PInt 0) /\ set_compact (from_le [1; 0; 128; 0]) = (0, false, false).
+Proof. exact compact_sign_bit_instance. Qed.
+Print Assumptions C17_compact_sign_bit_agrees.
 
-Theorem C17_compact_overflow_refuted :
-  exists bits v, bytes_ok bits /\ length bits = 4%nat /\
-    bits_to_target bits = Ok (PInt v) /\ 2 ^ 256 <= v /\ snd (set_compact (from_le bits)) = true.
-Proof. exact compact_overflow_refuted. Qed.
-Print Assumptions C17_compact_overflow_refuted.
+Theorem C17_compact_overflow_agrees :
+  bits_to_target [0; 0; 1; 33] = Err /\ snd (set_compact (from_le [0; 0; 1; 33])) = true /\
+  bits_to_target [255; 255; 0; 33] = Ok (PInt (65535 * 256 ^ 30)) /\
+  bits_to_target [255; 0; 0; 34] = Ok (PInt (255 * 256 ^ 31)) /\
+  bits_to_target [0; 0; 0; 255] = Ok (PInt 0).
+Proof. exact compact_overflow_instance. Qed.
+Print Assumptions C17_compact_overflow_agrees.
 
 (* target_to_bits is Core's GetCompact (as a little-endian uint32) for every target from
    0x8000 up to 2^256 - 1 *)
@@ -268,12 +326,36 @@ Theorem C17_target_to_bits_eq_core : forall t,
 Proof. exact target_to_bits_core. Qed.
 Print Assumptions C17_target_to_bits_eq_core.
 
-(* below 0x8000 every result has fewer than 4 bytes; 0 raises (Core: 0) *)
-Theorem C17_target_to_bits_small_refuted :
-  (forall t, 0 < t < 32768 -> exists bits, target_to_bits t = Ok bits /\ (length bits < 4)%nat) /\
-  target_to_bits 0 = Err /\ get_compact 0 = 0.
-Proof. exact target_to_bits_small. Qed.
-Print Assumptions C17_target_to_bits_small_refuted.
+(* since de6be4c for EVERY target in [0, 2^256), four bytes always; outside that range
+   int.to_bytes raises *)
+Theorem C17_target_to_bits_eq_core_all : forall t,
+  0 <= t < 2 ^ 256 ->
+  exists bits, target_to_bits t = Ok bits /\ length bits = 4%nat /\ bytes_ok bits /\
+               from_le bits = get_compact t.
+Proof. exact target_to_bits_all. Qed.
+Print Assumptions C17_target_to_bits_eq_core_all.
+
+Theorem C17_target_to_bits_out_of_range : forall t, t < 0 \/ 2 ^ 256 <= t -> target_to_bits t = Err.
+Proof. exact target_to_bits_out_of_range. Qed.
+Print Assumptions C17_target_to_bits_out_of_range.
+
+(* target -> bits -> target is SetCompact(GetCompact(target)) *)
+Theorem C17_target_bits_target : forall t bits,
+  0 <= t < 2 ^ 256 -> target_to_bits t = Ok bits ->
+  bits_to_target bits =
+  let '(v, neg, ovf) := set_compact (get_compact t) in if neg || ovf then Err else Ok (PInt v).
+Proof. exact target_bits_target. Qed.
+Print Assumptions C17_target_bits_target.
+
+(* the former divergences below 0x8000 (fewer than 4 bytes; IndexError for 0) as instances *)
+Theorem C17_target_to_bits_small_agrees :
+  target_to_bits 0 = Ok [0; 0; 0; 0] /\ get_compact 0 = 0 /\
+  target_to_bits 1 = Ok [0; 0; 1; 1] /\ get_compact 1 = from_le [0; 0; 1; 1] /\
+  target_to_bits 128 = Ok [0; 128; 0; 2] /\ get_compact 128 = from_le [0; 128; 0; 2] /\
+  target_to_bits 4660 = Ok [0; 52; 18; 2] /\ get_compact 4660 = from_le [0; 52; 18; 2] /\
+  target_to_bits 32767 = Ok [0; 255; 127; 2] /\ get_compact 32767 = from_le [0; 255; 127; 2].
+Proof. exact target_to_bits_small_instance. Qed.
+Print Assumptions C17_target_to_bits_small_agrees.
 
 (* ---------------------------------------------------------------------------------- *)
 (* (7) retarget, proof of work, header chain *)
@@ -289,13 +371,24 @@ Theorem C17_retarget_eq_consensus : forall bits td v,
 Proof. exact retarget_core. Qed.
 Print Assumptions C17_retarget_eq_consensus.
 
+(* since de6be4c without the guard and without the lower bound: every previous four-byte bits
+   value that Core accepts (no flag, at most powLimit) *)
+Theorem C17_retarget_eq_consensus_all : forall bits td v,
+  bytes_ok bits -> length bits = 4%nat ->
+  set_compact (from_le bits) = (v, false, false) ->
+  v <= pow_limit ->
+  exists nb, calculate_new_bits bits td = Ok nb /\ length nb = 4%nat /\
+             from_le nb = next_work_required (from_le bits) td.
+Proof. exact retarget_core_all. Qed.
+Print Assumptions C17_retarget_eq_consensus_all.
+
 Example C17_retarget_instance :
   calculate_new_bits [255; 255; 0; 29] 302400 = Ok [192; 255; 63; 28] /\
   next_work_required (from_le [255; 255; 0; 29]) 302400 = from_le [192; 255; 63; 28].
 Proof. split; reflexivity. Qed.
 
-(* check_pow is the consensus comparison hash <= target except when hash = target
-   (explicit hypothesis) *)
+(* check_pow is the consensus comparison hash <= target (since fd08533 also when hash = target:
+   C17_check_pow_consensus_le below; the statement with the hypothesis is kept) *)
 Theorem C17_check_pow_consensus : forall (hash256 : bytes -> bytes) h s v,
   serialize_header h = Ok s ->
   bits_to_target (h_bits h) = Ok (PInt v) ->
@@ -313,16 +406,54 @@ Theorem C17_check_pow_eq_core : forall (hash256 : bytes -> bytes) h s,
 Proof. exact check_pow_core. Qed.
 Print Assumptions C17_check_pow_eq_core.
 
-(* hash = target: consensus accepts, check_pow rejects (known, practically unreachable) *)
-Theorem C17_check_pow_equal_refuted :
+Theorem C17_check_pow_consensus_le : forall (hash256 : bytes -> bytes) h s v,
+  serialize_header h = Ok s ->
+  bits_to_target (h_bits h) = Ok (PInt v) ->
+  check_pow hash256 h = Ok (negb (from_le (hash256 s) >? v)).
+Proof. exact check_pow_consensus_le. Qed.
+Print Assumptions C17_check_pow_consensus_le.
+
+(* former known finding K-C17-pow-eq, repaired by fd08533: a hash equal to the target is
+   accepted, as by CheckProofOfWork *)
+Theorem C17_check_pow_accepts_equal : forall (hash256 : bytes -> bytes) h s v,
+  serialize_header h = Ok s ->
+  bits_to_target (h_bits h) = Ok (PInt v) ->
+  from_le (hash256 s) = v ->
+  check_pow hash256 h = Ok true.
+Proof. exact check_pow_accepts_equal. Qed.
+Print Assumptions C17_check_pow_accepts_equal.
+
+Theorem C17_check_pow_equal_instance :
   exists (hash256 : bytes -> bytes) (h : header) s v,
     (forall x, length (hash256 x) = 32%nat) /\
     serialize_header h = Ok s /\ compact_guard (h_bits h) = true /\
     bits_to_target (h_bits h) = Ok (PInt v) /\ from_le (hash256 s) = v /\
-    check_pow hash256 h = Ok false /\
+    check_pow hash256 h = Ok true /\
     check_proof_of_work (from_le (hash256 s)) (from_le (h_bits h)) = true.
-Proof. exact check_pow_equal_refuted. Qed.
-Print Assumptions C17_check_pow_equal_refuted.
+Proof. exact check_pow_equal_instance. Qed.
+Print Assumptions C17_check_pow_equal_instance.
+
+(* bits that SetCompact flags negative or overflowing never satisfy proof of work: check_pow
+   returns False (it does not raise), as CheckProofOfWork does (de6be4c) *)
+Theorem C17_check_pow_flagged_bits_false : forall (hash256 : bytes -> bytes) h s,
+  serialize_header h = Ok s ->
+  bytes_ok (h_bits h) -> length (h_bits h) = 4%nat ->
+  (let '(_, neg, ovf) := set_compact (from_le (h_bits h)) in neg || ovf = true) ->
+  check_pow hash256 h = Ok false.
+Proof. exact check_pow_flagged_bits. Qed.
+Print Assumptions C17_check_pow_flagged_bits_false.
+
+(* check_pow = CheckProofOfWork for EVERY header with four-byte bits whose SetCompact value is at
+   most powLimit (check_pow has no powLimit test: light-client scope), for every non-zero hash
+   (Core also rejects target = 0; check_pow compares, which differs only for the hash 0) *)
+Theorem C17_check_pow_eq_core_all : forall (hash256 : bytes -> bytes) h s,
+  serialize_header h = Ok s ->
+  bytes_ok (h_bits h) -> length (h_bits h) = 4%nat ->
+  fst (fst (set_compact (from_le (h_bits h)))) <= pow_limit ->
+  from_le (hash256 s) <> 0 -> 0 <= from_le (hash256 s) ->
+  check_pow hash256 h = Ok (check_proof_of_work (from_le (hash256 s)) (from_le (h_bits h))).
+Proof. exact check_pow_core_full. Qed.
+Print Assumptions C17_check_pow_eq_core_all.
 
 (* HeadersMessage.is_valid => every header passes check_pow and each header's prev_block
    is the hash of its predecessor *)
@@ -340,6 +471,268 @@ Theorem C17_header_chain_accepts_linked : forall (hash256 : bytes -> bytes) hs l
   headers_valid_loop hash256 hs (Some lb) = Ok true.
 Proof. exact headers_linked_valid. Qed.
 Print Assumptions C17_header_chain_accepts_linked.
+
+(* ---------------------------------------------------------------------------------- *)
+(* (8) ORDER and BINDING of SPV proofs (Proofs/MerkleDeepP.v) *)
+
+(* with the authentic transaction count, the ids a validating proof yields — honest or
+   altered — are a sub-sequence of the block's ids IN BLOCK ORDER: there is a match vector mv
+   with proved = sel ids mv (strengthens the membership statement of (3)); on the recursive
+   traversal and on the faithful cursor machine *)
+Theorem C17_proof_sound_ordered : forall (hash256 : bytes -> bytes),
+  (forall x, length (hash256 x) = 32%nat) ->
+  forall (ids : list bytes) hdr_root hashes flags proved,
+  ids <> [] -> Forall (fun t => length t = 32%nat) ids ->
+  Forall (fun t => length t = 32%nat) hashes ->
+  validate_merkle_root hash256 hdr_root ids = Ok true ->
+  mb_is_valid_rec hash256 hdr_root (zlen ids) hashes flags = Ok (true, proved) ->
+  (exists mv, length mv = length ids /\ proved = sel ids mv) \/
+  (exists x y : bytes, x <> y /\ hash256 x = hash256 y).
+Proof. exact proof_sound_ordered. Qed.
+Print Assumptions C17_proof_sound_ordered.
+
+Theorem C17_proof_sound_ordered_machine : forall (hash256 : bytes -> bytes),
+  (forall x, length (hash256 x) = 32%nat) ->
+  forall (ids : list bytes) hdr_root hashes flags proved,
+  ids <> [] -> Forall (fun t => length t = 32%nat) ids ->
+  Forall (fun t => length t = 32%nat) hashes ->
+  validate_merkle_root hash256 hdr_root ids = Ok true ->
+  mb_is_valid hash256 hdr_root (zlen ids) hashes flags = Ok (true, proved) ->
+  (exists mv, length mv = length ids /\ proved = sel ids mv) \/
+  (exists x y : bytes, x <> y /\ hash256 x = hash256 y).
+Proof. exact proof_sound_ordered_machine. Qed.
+Print Assumptions C17_proof_sound_ordered_machine.
+
+(* "altering any hash makes validation fail": for a fixed (header root, total, flag bytes) at
+   most ONE list of 32-byte hashes validates.  A proof whose hash list was changed in any way
+   (a bit of a hash, a dropped, added, reordered hash) and that still validates exhibits a
+   hash256 collision.  Holds for EVERY total (authentic or not); no knowledge of the block. *)
+Theorem C17_proof_hash_tamper_detected : forall (hash256 : bytes -> bytes),
+  (forall x, length (hash256 x) = 32%nat) ->
+  forall hdr_root total hashes hashes' flags proved proved',
+  Forall (fun t => length t = 32%nat) hashes -> Forall (fun t => length t = 32%nat) hashes' ->
+  mb_is_valid hash256 hdr_root total hashes flags = Ok (true, proved) ->
+  mb_is_valid hash256 hdr_root total hashes' flags = Ok (true, proved') ->
+  (hashes = hashes' /\ proved = proved') \/
+  (exists x y : bytes, x <> y /\ hash256 x = hash256 y).
+Proof. exact proof_hash_binding. Qed.
+Print Assumptions C17_proof_hash_tamper_detected.
+
+(* "altering the header root makes validation fail": unconditional *)
+Theorem C17_proof_root_tamper_detected : forall (hash256 : bytes -> bytes)
+  hdr_root hdr_root' total hashes flags proved,
+  mb_is_valid hash256 hdr_root total hashes flags = Ok (true, proved) ->
+  hdr_root' <> hdr_root ->
+  mb_is_valid hash256 hdr_root' total hashes flags = Ok (false, proved).
+Proof. exact proof_root_tamper. Qed.
+Print Assumptions C17_proof_root_tamper_detected.
+
+(* since 5e35f6e the two statements hold for ANY proof object, with no premise on its hashes *)
+Theorem C17_proof_sound_ordered_any_proof : forall (hash256 : bytes -> bytes),
+  (forall x, length (hash256 x) = 32%nat) ->
+  forall (ids : list bytes) hdr_root hashes flags proved,
+  ids <> [] -> Forall (fun t => length t = 32%nat) ids ->
+  validate_merkle_root hash256 hdr_root ids = Ok true ->
+  mb_is_valid hash256 hdr_root (zlen ids) hashes flags = Ok (true, proved) ->
+  (exists mv, length mv = length ids /\ proved = sel ids mv) \/
+  (exists x y : bytes, x <> y /\ hash256 x = hash256 y).
+Proof. exact proof_sound_ordered_machine_nolen. Qed.
+Print Assumptions C17_proof_sound_ordered_any_proof.
+
+Theorem C17_proof_hash_tamper_detected_any_proof : forall (hash256 : bytes -> bytes),
+  (forall x, length (hash256 x) = 32%nat) ->
+  forall hdr_root total hashes hashes' flags proved proved',
+  mb_is_valid hash256 hdr_root total hashes flags = Ok (true, proved) ->
+  mb_is_valid hash256 hdr_root total hashes' flags = Ok (true, proved') ->
+  (hashes = hashes' /\ proved = proved') \/
+  (exists x y : bytes, x <> y /\ hash256 x = hash256 y).
+Proof. exact proof_hash_binding_nolen. Qed.
+Print Assumptions C17_proof_hash_tamper_detected_any_proof.
+
+(* ---------------------------------------------------------------------------------- *)
+(* (9) the wire level: MerkleBlock.parse(stream) then is_valid() / proved_txs()
+   (Proofs/MerkleWireP.v; Spec/MerkleBlockWire.v is Core's CMerkleBlock serialisation) *)
+
+(* every hash MerkleBlock.parse returns has 32 bytes (a short stream is an error): the
+   32-byte hypothesis of (3)/(8) holds for every proof that comes from the wire *)
+Theorem C17_parse_yields_32_byte_hashes : forall s hdr total hashes flags rest,
+  mb_parse s = Ok (hdr, total, hashes, flags, rest) ->
+  Forall (fun t => length t = 32%nat) hashes.
+Proof. exact mb_parse_hashes_32. Qed.
+Print Assumptions C17_parse_yields_32_byte_hashes.
+
+(* MerkleBlock.parse inverts the Core layout of a merkleblock message *)
+Theorem C17_parse_inverts_core_layout : forall hdr hb total hashes flags rest,
+  header_wf hdr -> serialize_header hdr = Ok hb ->
+  0 <= total < 4294967296 ->
+  Forall (fun t => length t = 32%nat) hashes -> zlen hashes < 18446744073709551616 ->
+  zlen flags < 9223372036854775808 ->
+  mb_parse (merkleblock_bytes hb total hashes flags ++ rest) =
+  Ok (hdr, total, map (@rev Z) hashes, flags, rest).
+Proof. exact mb_parse_wire. Qed.
+Print Assumptions C17_parse_inverts_core_layout.
+
+(* soundness (ordered) for a proof taken from the wire — no hypothesis on the proof *)
+Theorem C17_wire_proof_sound : forall (hash256 : bytes -> bytes),
+  (forall x, length (hash256 x) = 32%nat) ->
+  forall s hdr total hashes flags rest (ids : list bytes) proved,
+  mb_parse s = Ok (hdr, total, hashes, flags, rest) ->
+  ids <> [] -> Forall (fun t => length t = 32%nat) ids -> total = zlen ids ->
+  validate_merkle_root hash256 (h_root hdr) ids = Ok true ->
+  mb_is_valid hash256 (h_root hdr) total hashes flags = Ok (true, proved) ->
+  (exists mv, length mv = length ids /\ proved = sel ids mv) \/
+  (exists x y : bytes, x <> y /\ hash256 x = hash256 y).
+Proof. exact wire_proof_sound. Qed.
+Print Assumptions C17_wire_proof_sound.
+
+Theorem C17_wire_proof_binding : forall (hash256 : bytes -> bytes),
+  (forall x, length (hash256 x) = 32%nat) ->
+  forall s s' hdr hdr' total hashes hashes' flags rest rest' proved proved',
+  mb_parse s = Ok (hdr, total, hashes, flags, rest) ->
+  mb_parse s' = Ok (hdr', total, hashes', flags, rest') ->
+  h_root hdr = h_root hdr' ->
+  mb_is_valid hash256 (h_root hdr) total hashes flags = Ok (true, proved) ->
+  mb_is_valid hash256 (h_root hdr') total hashes' flags = Ok (true, proved') ->
+  (hashes = hashes' /\ proved = proved') \/
+  (exists x y : bytes, x <> y /\ hash256 x = hash256 y).
+Proof. exact wire_proof_binding. Qed.
+Print Assumptions C17_wire_proof_binding.
+
+(* completeness from the wire: the message a full node builds (Core's CPartialMerkleTree
+   constructor and CMerkleBlock layout) for any block of fewer than 2^32 transactions and any
+   match vector parses back to the header and the authentic total, validates, and yields
+   exactly the matched ids in order *)
+Theorem C17_wire_proof_complete : forall (hash256 : bytes -> bytes),
+  (forall x, length (hash256 x) = 32%nat) ->
+  forall (ids : list bytes) (matches : list bool) hdr hb rest,
+  ids <> [] -> Forall (fun t => length t = 32%nat) ids -> zlen ids < 4294967296 ->
+  length matches = length ids ->
+  header_wf hdr -> serialize_header hdr = Ok hb ->
+  h_root hdr = rev (consensus_root hash256 (map (@rev Z) ids)) ->
+  exists hashes flags,
+    mb_parse (merkleblock_of_block hash256 hb (map (@rev Z) ids) matches ++ rest)
+      = Ok (hdr, zlen ids, hashes, flags, rest) /\
+    mb_is_valid hash256 (h_root hdr) (zlen ids) hashes flags = Ok (true, sel ids matches).
+Proof. exact wire_proof_complete. Qed.
+Print Assumptions C17_wire_proof_complete.
+
+(* non-vacuity: a 32-byte "hash", three 32-byte ids, a well-formed header carrying their root;
+   the wire message parses, validates, yields the matched ids; the hypotheses of
+   C17_wire_proof_sound / C17_proof_sound_ordered_machine / C17_proof_hash_tamper_detected hold
+   on it *)
+Example C17_ex_hash_32 : forall x, length (ex_hash x) = 32%nat.
+Proof. exact ex_hash_32. Qed.
+
+Example C17_wire_instance :
+  exists hb, serialize_header ex_hdr = Ok hb /\
+  let w := merkleblock_of_block ex_hash hb (map (@rev Z) ex_ids) [true; false; true] in
+  exists hashes flags,
+    mb_parse (w ++ [9; 9]) = Ok (ex_hdr, 3, hashes, flags, [9; 9]) /\
+    validate_merkle_root ex_hash (h_root ex_hdr) ex_ids = Ok true /\
+    mb_is_valid ex_hash (h_root ex_hdr) 3 hashes flags = Ok (true, [repeatz 1 32; repeatz 3 32]) /\
+    mb_parse_is_valid ex_hash (w ++ [9; 9]) = Ok (true, [repeatz 1 32; repeatz 3 32]) /\
+    Forall (fun t => length t = 32%nat) hashes.
+Proof. exact ex_wire_instance. Qed.
+
+(* ---------------------------------------------------------------------------------- *)
+(* (10) populate_tree's effect on the caller's list objects (Proofs/MerkleMutP.v) *)
+
+(* the machine that also reports what is left in flag_bits / hashes equals the recursive one
+   on all inputs *)
+Theorem C17_populate_tree_mut_refines : forall (hash256 : bytes -> bytes) total bits hs,
+  populate_tree_mut hash256 total bits hs = populate_tree_rec_mut hash256 total bits hs.
+Proof. exact machine_mut_eq_traversal. Qed.
+Print Assumptions C17_populate_tree_mut_refines.
+
+(* after a successful populate_tree the caller's hash list is empty, the flag list is a suffix
+   of what was passed and holds only zeros; root and proved ids are those of populate_tree;
+   and every successful populate_tree is such a run *)
+Theorem C17_populate_tree_consumes_lists : forall (hash256 : bytes -> bytes) total bits hs,
+  (forall r p bits' hs',
+     populate_tree_mut hash256 total bits hs = Ok (r, p, bits', hs') ->
+     populate_tree hash256 total bits hs = Ok (r, p) /\
+     hs' = [] /\ Forall (fun b => b = 0) bits' /\ exists used, bits = used ++ bits') /\
+  (forall r p, populate_tree hash256 total bits hs = Ok (r, p) ->
+     exists bits', populate_tree_mut hash256 total bits hs = Ok (r, p, bits', [])).
+Proof.
+  intros H total bits hs. split; [intros r p b' h'; apply populate_mut_spec | intros r p; apply populate_mut_complete].
+Qed.
+Print Assumptions C17_populate_tree_consumes_lists.
+
+Example C17_populate_mut_instance :
+  populate_tree_mut (fun x => x) 3 [1; 1; 0; 1; 1; 1; 0; 0; 0] [repeatz 1 32; repeatz 2 32; repeatz 3 32]
+  = Ok (repeatz 1 32 ++ repeatz 2 32 ++ repeatz 3 32 ++ repeatz 3 32, [repeatz 2 32; repeatz 3 32], [0; 0; 0], []).
+Proof. exact ex_populate_mut_instance. Qed.
+
+(* ---------------------------------------------------------------------------------- *)
+(* (11) HeadersMessage.is_valid as a decision procedure; HeadersMessage.parse . is_valid
+   (Proofs/PowDeepP.v) *)
+
+(* both directions for the outer function (last_block = None at the start): True exactly when
+   every header passes check_pow and every header after the first names the hash of its
+   predecessor *)
+Theorem C17_header_chain_iff : forall (hash256 : bytes -> bytes),
+  (forall x, hash256 x <> []) ->
+  forall hs, headers_is_valid hash256 hs = Ok true <-> chain_ok hash256 hs.
+Proof. exact headers_is_valid_iff. Qed.
+Print Assumptions C17_header_chain_iff.
+
+(* on well-formed headers (what parse_header yields from 80 bytes) is_valid never raises and
+   decides chain_ok *)
+Theorem C17_header_chain_decides : forall (hash256 : bytes -> bytes),
+  (forall x, hash256 x <> []) ->
+  forall hs, Forall header_wf hs ->
+  exists ok, headers_is_valid hash256 hs = Ok ok /\ (ok = true <-> chain_ok hash256 hs).
+Proof. exact headers_is_valid_decides. Qed.
+Print Assumptions C17_header_chain_decides.
+
+(* HeadersMessage.parse(peer's layout ++ rest).is_valid() = is_valid() of the headers sent *)
+Theorem C17_wire_headers : forall (hash256 : bytes -> bytes) hs,
+  Forall header_wf hs -> zlen hs < 18446744073709551616 ->
+  exists b, headers_layout hs = Ok b /\
+    forall rest, headers_parse_is_valid hash256 (b ++ rest) = headers_is_valid hash256 hs.
+Proof. exact wire_headers. Qed.
+Print Assumptions C17_wire_headers.
+
+(* non-vacuity: two well-formed linked headers under a "hash" that meets every target *)
+Example C17_header_chain_instance :
+  headers_is_valid ex_zero_hash [ex_h1; ex_h2] = Ok true /\
+  Forall header_wf [ex_h1; ex_h2] /\ (forall x, ex_zero_hash x <> []) /\
+  exists b, headers_layout [ex_h1; ex_h2] = Ok b /\ headers_parse_is_valid ex_zero_hash (b ++ [3]) = Ok true.
+Proof. exact ex_header_chain_instance. Qed.
+
+(* ---------------------------------------------------------------------------------- *)
+(* (12) Block.difficulty = lowest / target() (Model/Difficulty.v, Proofs/DifficultyP.v).
+   Python's int / int is the double nearest to the exact quotient, ties to even; the model
+   computes that double as (m, e) = m * 2^e.  [nearest_even a b m e] says, in integers:
+   2^52 <= m <= 2^53, |a/b - m 2^e| <= 2^e / 2, and m is even when the distance is exactly
+   half a unit — the properties that determine round-to-nearest-even uniquely. *)
+Theorem C17_nearest_double_of_quotient : forall a b, 0 < a -> 0 < b < 2 ^ 256 ->
+  let '(m, e) := rn_div a b in nearest_even a b m e.
+Proof. exact rn_div_spec. Qed.
+Print Assumptions C17_nearest_double_of_quotient.
+
+(* on a header's four-byte bits: the nearest double to lowest / SetCompact(bits) whenever Core
+   flags nothing and the target is not 0; an exception (ValueError, ZeroDivisionError) otherwise *)
+Theorem C17_difficulty_correctly_rounded : forall bits, bytes_ok bits -> length bits = 4%nat ->
+  let '(v, neg, ovf) := set_compact (from_le bits) in
+  if neg || ovf then difficulty bits = Err
+  else if v =? 0 then difficulty bits = Err
+  else exists m e, difficulty bits = Ok (m, e) /\ nearest_even LOWEST v m e.
+Proof. exact difficulty_spec. Qed.
+Print Assumptions C17_difficulty_correctly_rounded.
+
+(* for bits of any length: whatever difficulty() returns is the nearest double to
+   lowest / target() *)
+Theorem C17_difficulty_any_bits : forall bits m e, difficulty bits = Ok (m, e) ->
+  exists t, bits_to_target bits = Ok (PInt t) /\ t <> 0 /\ nearest_even LOWEST t m e.
+Proof. exact difficulty_any. Qed.
+Print Assumptions C17_difficulty_any_bits.
+
+(* the lowest difficulty (bits 0x1d00ffff) is exactly 1.0 *)
+Example C17_difficulty_genesis :
+  difficulty [255; 255; 0; 29] = Ok (2 ^ 52, -52) /\ ratio_of (2 ^ 52, -52) = (1, 1).
+Proof. exact difficulty_genesis. Qed.
 
 (* The constants written in the model are the constants of the SOURCE: coq/Generated/SrcConsts.v is regenerated
    from /repo/buidl/*.py by harness/gen_coq_consts.py on every run; the statements are spelled out in
